@@ -138,8 +138,8 @@ func workerMain(args []string) int {
 			mu.Lock()
 			st, c := w.caseStart, w.curCase
 			mu.Unlock()
-			if !st.IsZero() && time.Since(st) > 90*time.Second {
-				fmt.Fprintf(os.Stderr, "WATCHDOG: worker %d case %d of %s runs for more than 90 s (seed %d)\n", f.w, c, f.prop, f.seed)
+			if !st.IsZero() && time.Since(st) > 300*time.Second {
+				fmt.Fprintf(os.Stderr, "WATCHDOG: worker %d case %d of %s runs for more than 300 s (seed %d)\n", f.w, c, f.prop, f.seed)
 				os.Exit(3)
 			}
 		}
